@@ -401,6 +401,9 @@ pub fn run_program(prog: Program, opts: &Opts, plan: noise::Plan) -> RunResult {
                 diag.push(format!("quiescent while {} of {} holds are occupied and closed", inside, want_inside));
                 ctx.sink.report("C10", "independent_object_made_no_progress_while_others_blocked", format!("c10_stall:pool{}:held{}", ctx.prog.pool, ctx.prog.held_objs.len()),
                     format!("all threads quiet with {} bodies blocked (pool maximum {}), yet operations on other objects are incomplete: {}", inside, ctx.prog.pool, incomplete_list(&ctx, true)));
+                // who is blocked in what, while the holds are still closed (opening them may let a free pool thread rescue the situation):
+                // a drop, sync or await that cannot finish although nothing it waits for is blocked belongs to that call's own property too
+                diagnose(&ctx, &objects, &s, &mut diag, pprop);
                 stuck_snap = Some(s);
             }
             Wait::TimedOut => outcome = Outcome::Inconclusive("watchdog in hold phase".into()),
@@ -546,12 +549,29 @@ pub fn run_program(prog: Program, opts: &Opts, plan: noise::Plan) -> RunResult {
             }
             if let (Some(d), true) = (ph.dying_op, outcome == Outcome::Completed) {
                 // the panicking job has run and its thread has left the process; nothing has called the scheduler since
-                match wait_until(native, watchdog, || ctx.recs[d].outcome.load(ORD) == 5 && dying_threads_gone()) {
+                let d2 = ph.dying_op2;
+                match wait_until(native, watchdog, || ctx.recs[d].outcome.load(ORD) == 5 && d2.map(|d2| ctx.recs[d2].outcome.load(ORD) == 5).unwrap_or(true) && dying_threads_gone()) {
                     Wait::Done => {}
                     Wait::Quiescent(s) => { outcome = Outcome::Stuck; stuck_snap = Some(s);
                         ctx.sink.report("C10", "independent_object_made_no_progress_while_others_blocked", format!("c10_stall:pool{}:held{}:{}", cur_max, ph.occupy.len(), ph.name),
                             format!("phase '{}': the job on the free object never ran although the pool maximum {} exceeds the {} blocked bodies", ph.name, cur_max, ph.occupy.len())); }
                     Wait::TimedOut => outcome = Outcome::Inconclusive("watchdog waiting for the panicking job".into()),
+                }
+            }
+            if !ph.after_deaths.is_empty() && outcome == Outcome::Completed {
+                // more work arrives while the surviving pool threads are still inside their blocked bodies: the dead threads have to be
+                // replaced (up to the maximum) for it to run, and the scheduling calls themselves have to return
+                started += 1;
+                spawn_caller(&ctx, 20, ph.after_deaths.clone(), None, None);
+                let ids: Vec<OpId> = ph.after_deaths.iter().filter_map(|a| if let TAct::Op(o) = a { Some(*o) } else { None }).collect();
+                match wait_until(native, watchdog, || ids.iter().all(|o| ctx.recs[*o].end.load(ORD) != 0)) {
+                    Wait::Done => {}
+                    Wait::Quiescent(s) => { outcome = Outcome::Stuck; stuck_snap = Some(s);
+                        let done = ids.iter().filter(|o| ctx.recs[**o].end.load(ORD) != 0).count();
+                        let returned = ids.iter().filter(|o| ctx.recs[**o].ret.load(ORD) != 0).count();
+                        ctx.sink.report("C17", "dead_pool_threads_not_replaced", format!("dead_not_replaced:max{}:{}", cur_max, ph.name),
+                            format!("phase '{}': pool threads died with {} bodies still blocked (maximum {}); of {} operations scheduled afterwards on a free object {} calls returned and {} ran; all threads quiet; scheduler {:?}, {} live pool threads", ph.name, ph.occupy.len(), cur_max, ids.len(), returned, done, scheduler(), live_pool())); }
+                    Wait::TimedOut => outcome = Outcome::Inconclusive("watchdog waiting for the work scheduled after the deaths".into()),
                 }
             }
             if let (Some(lower), true) = (ph.lower_while_busy, outcome == Outcome::Completed) {
